@@ -96,7 +96,9 @@ CHECKS = {
              "explains every observed set, and that the OR-of-ANDs gate built from it admits them (tie: the real function's "
              "answer is a model outcome and satisfies the clauses; process_missing_and_gates builds the model's gate). "
              "The OR inference (check_is_or_operator / infer_or_gate_from_node) is modelled and its decision logic proved "
-             "sound over abstract children (or_inference_sound, or_test_spec); filter_defunct_or_gates and "
+             "sound over abstract children (or_inference_sound, or_test_spec) and, with a semantics of the miner's trees, for the "
+             "executable model on arbitrary subtrees (or_inference_tree_sound); the domain also runs under unusual event "
+             "names (prefixes / concatenations of one another, blanks, punctuation); filter_defunct_or_gates and "
              "process_missing_and_gates are modelled too, and on the REAL raw miner trees of the whole domain the real "
              "post-processing returns an outcome of the Lean model, every outcome of which (every choice of max) Lean "
              "judges sound / exact. NOT a proof about pm4py's inductive miner, whose raw output is taken as data "
